@@ -412,6 +412,57 @@ func (c *c19) genCase() *c19Case {
 	return cs
 }
 
+// genTieCase builds a dense zero-fee graph in which every partial path has the
+// same distance, so that the order of relaxations is decided only by the heap's
+// probability tie-break and map iteration order: a probe of the finality
+// discipline (an expanded node's entry is never replaced) that the soundness
+// theorem takes as a hypothesis. Time-lock deltas differ, so a stale entry
+// would show up as a violated CLTV limit in a follow-up case.
+func (c *c19) genTieCase() *c19Case {
+	r := c.rng
+	cs := &c19Case{kind: "mem", via: "find", lastHop: -1,
+		bw: map[uint64]uint64{}}
+	cs.n = 4 + r.Intn(3)
+	cs.amt = c.pick(2, 1000, 1000, 50000)
+	cs.src = r.Intn(cs.n)
+	cs.self = cs.src
+	cs.tgt = (cs.src + 1 + r.Intn(cs.n-1)) % cs.n
+	id := uint64(1)
+	for a := 0; a < cs.n; a++ {
+		for b := a + 1; b < cs.n; b++ {
+			direct := (a == cs.src && b == cs.tgt) ||
+				(a == cs.tgt && b == cs.src)
+			if !c.chance(0.6) || (direct && c.chance(0.8)) {
+				continue
+			}
+			mk := func() *c19Pol {
+				p := &c19Pol{max: 1 << 40}
+				p.delta = uint16(c.pick(1, 10, 40, 144, 300))
+				if c.chance(0.15) {
+					p.base = 1
+				}
+				return p
+			}
+			cs.chans = append(cs.chans, c19Chan{id: id, a: a, b: b,
+				capSat: 1 << 33, p1: mk(), p2: mk()})
+			id++
+		}
+	}
+	if len(cs.chans) == 0 {
+		cs.chans = append(cs.chans, c19Chan{id: 1, a: cs.src, b: cs.tgt,
+			capSat: 1 << 33, p1: &c19Pol{delta: 40}, p2: &c19Pol{delta: 40}})
+	}
+	cs.order = r.Perm(len(cs.chans))
+	cs.feeLimit = 1 << 50
+	cs.cltvLimit = uint32(c.pick(math.MaxUint32, 40, 144, 200, 400,
+		uint64(r.Intn(600))))
+	cs.height = 800000
+	cs.finalDelta = 9
+	cs.defaultCfg = c.chance(0.2)
+	cs.probSalt = 1 + r.Intn(50)
+	return cs
+}
+
 func c19PolStr(p *c19Pol) string {
 	if p == nil {
 		return "-"
@@ -440,6 +491,7 @@ func c19List[T any](xs []T, f func(T) string) string {
 type c19Result struct {
 	rt   *route.Route
 	path []*unifiedEdge
+	prob float64
 }
 
 func c19ErrClass(err error) string {
@@ -564,7 +616,7 @@ func (c *c19) run(cs *c19Case, g Graph, sess GraphSessionFactory,
 				LastHop:            lastHop,
 				CltvLimit:          cs.cltvLimit,
 			}
-			res.path, _, ferr = findPath(
+			res.path, res.prob, ferr = findPath(
 				&graphParams{graph: g, bandwidthHints: hints}, r,
 				&cfg, keys[cs.self], keys[cs.src], keys[cs.tgt],
 				lnwire.MilliSatoshi(cs.amt), 0,
@@ -607,6 +659,7 @@ func (c *c19) run(cs *c19Case, g Graph, sess GraphSessionFactory,
 					p, pr, err := findPath(g, r, cfg, self, source,
 						target, amt, timePref, finalHtlcExpiry)
 					res.path = p
+					res.prob = pr
 					ferr = err
 
 					return p, pr, err
@@ -634,7 +687,29 @@ func (c *c19) run(cs *c19Case, g Graph, sess GraphSessionFactory,
 		c.pf("find => %s", c19ErrClass(ferr))
 		res.rt = nil
 	default:
-		c.pf("find => ok nedges=%d", len(res.path))
+		// The probability findPath reports is the one stored with the
+		// source's entry; recompute it along the returned chain in the
+		// search's own order (target backwards). A difference means the
+		// entries along the chain are not the ones the edges were relaxed
+		// with (finality discipline of the search).
+		want := 1.0
+		{
+			froms := make([]route.Vertex, len(res.path))
+			cur := keys[cs.src]
+			for i, e := range res.path {
+				froms[i] = cur
+				cur = e.policy.ToNodePubKey()
+			}
+			for i := len(res.path) - 1; i >= 0; i-- {
+				want *= prob(froms[i],
+					res.path[i].policy.ToNodePubKey(), 0, 0)
+			}
+		}
+		probOK := 0
+		if want == res.prob {
+			probOK = 1
+		}
+		c.pf("find => ok nedges=%d probok=%d", len(res.path), probOK)
 		from := cs.src
 		for i, e := range res.path {
 			to := vi(e.policy.ToNodePubKey())
@@ -904,6 +979,9 @@ func TestVerifC19(t *testing.T) {
 	// ---- in-memory graphs -------------------------------------------------
 	for k := 0; k < nMem; k++ {
 		cs := c.genCase()
+		if c.chance(0.08) {
+			cs = c.genTieCase()
+		}
 		if c.chance(0.3) && cs.self == cs.src {
 			cs.via = "sess"
 			if cs.finalDelta < BlockPadding {
